@@ -234,7 +234,29 @@ class RustSource:
             return self._with_attrs(h), self._item_end(h)
         raise ExtractError(f'bad item spec {spec!r}')
 
+    def extract_block(self, spec):
+        """`block <item spec> @ <regex>`: the balanced `{...}` block that follows the first match of <regex>
+        inside the item (e.g. one match arm of a function), braces included."""
+        m = re.match(r'^block\s+(.+?)\s+@\s+(.+)$', spec)
+        item, rx = m.group(1), m.group(2)
+        s0, e0 = self.find(item)
+        mm = re.search(rx, self.masked[s0:e0])
+        if not mm:
+            # the pattern may contain string literals, which are blanked in the masked text
+            mm = re.search(rx, self.text[s0:e0])
+        if not mm:
+            raise ExtractError(f'{rx!r} not found inside {item!r} in {self.path}')
+        k = s0 + mm.end()
+        while k < e0 and self.masked[k] != '{':
+            k += 1
+        if k >= e0:
+            raise ExtractError(f'no block after {rx!r} in {item!r}')
+        end = self._match_brace(k) + 1
+        return self.text[k:end]
+
     def extract(self, spec):
+        if spec.startswith('block '):
+            return self.extract_block(spec)
         body_only = False
         if spec.startswith('body '):
             body_only = True
